@@ -13,6 +13,19 @@ def gen(rng, exhaustive_n, exhaustive_k, with_reboot):
             ops.append("dump %d" % k)
             if k % 5 == 0:
                 ops.append("ls")
+    # final dumps requested by a stop file / by the wall-clock limit: same guarantees
+    for n in exhaustive_n:
+        for mode in ("stop", "newt"):
+            ops.append(("new %d" if mode == "stop" else "newt %d") % n)
+            kmax = min(exhaustive_k, n + 2)
+            for k in range(1, kmax + 1):
+                ops.append("dump %d" % k)
+            if mode == "stop":
+                ops.append("stop")
+            for p in range(0, n + 6):
+                ops.append("crash %d %d" % (kmax + 1, p))
+            ops.append("dump %d" % (kmax + 1))
+            ops.append("ls")
     if with_reboot:
         for n in exhaustive_n:
             for kb in (1, 2, n + 1):
@@ -47,12 +60,12 @@ def run(ctx):
     if ok:
         n, impl, model, orc = ctx.correspond("rotation", h, vlib.driver("drv_c14"), ops,
                                              cmp=lambda a, b, op: a == vlib.strip_branch(b),
-                                             group_start=lambda op: op.startswith("new"),
+                                             group_start=lambda op: op.startswith("new"),  # also matches "newt"
                                              oracle_key=lambda what, grp: "rotation:" + what.split("(")[0].split()[0])
         cur_n, k = 0, 0
         for op, ml in zip(ops, model):
             w = op.split()
-            if w[0] == "new":
+            if w[0] in ("new", "newt"):
                 cur_n, k = int(w[1]), 0
             ctx.count()
             if w[0] == "dump":
